@@ -25,7 +25,7 @@ class U1(Universe):
               BlkCreate(1, 'b', 'H1'), BlkCreate(1, 'c', 'H1')]
         for code in ['b', 'B', E_COMB, 'c', '']:
             o.append(BlkGet(0, code, 'H0'))
-        o += [BlkGet(1, 'b', 'H1'), BlkGet(0, 'b', 'H3')]
+        o += [BlkGet(1, 'b', 'H1'), BlkGet(0, 'b', 'H3'), ParseInto(0, 'containers'), ParseInto(1, 'containers')]
         for hp in ['H0', 'H2']:
             if m.h_live(hp):
                 for code in ['s', 'S', 'b', '', 's\t']:
@@ -84,6 +84,7 @@ class U2(Universe):
             elif l in m.L:
                 for what in ['destroy', 'itr', 'additem', 'addpkt']:
                     o.append(StaleLoopCall(l, what))
+        o.append(ParseInto(0, 'items'))
         for h in ['H0', 'H1']:
             for name in ['_a', '_A', '_b', '_c', 'a']:
                 o.append(ItemRemove(h, name))
